@@ -50,7 +50,7 @@ def run(prop, tier, seed, known):
             period = rng.choice([0.5, 0.75, 1.0, 0.25])      # binary-exact periods only: the 10 ms quantisation of P-score makes other lattices shift-sensitive by rounding
             start = rng.choice([5.0, 5.25, 6.0])
             ref = np.array([start + i * period for i in range(k)])
-            kind = rng.choice(['same', 'shifted', 'double', 'half', 'jitter', 'few', 'slip'])
+            kind = rng.choice(['same', 'shifted', 'double', 'half', 'jitter', 'few', 'slip', 'sparse'])
             if kind == 'same':
                 est = ref.copy()
             elif kind == 'shifted':
@@ -63,6 +63,11 @@ def run(prop, tier, seed, known):
                 est = np.sort(ref + np.array([rng.choice([-0.0625, 0, 0.0625]) for _ in ref]))
                 if est.min() < 5.0:          # the shift invariance is claimed for beats at or after the trim time only
                     est = est + 0.0625
+            elif kind == 'sparse':
+                # a tight group inside the reference span and one beat far behind it: the estimate's own inter-beat intervals say nothing about
+                # the reference's (beats within each sequence stay further apart than twice the P-score window)
+                a = rng.randint(1, k - 3)
+                est = np.array([ref[a], ref[a] + 0.75 * period, ref[-1] + 20 * period])
             elif kind == 'slip':
                 # follows the beat, then slips to the off-beat and drops a beat now and then
                 a = rng.randint(2, max(2, k - 3))
